@@ -635,6 +635,166 @@ func genC05(c *Ctx) {
 			c.Fail("c05.addr", in, "addr-roundtrip", "HashmapE keyed by tlb.AddressWithWorkchain: Put, Marshal, Unmarshal gives "+trunc(out.String(), 200)+" instead of the inserted pairs in key order")
 		}
 	}
+	// --- 6. HISTORIES on one dictionary object: build (Put / NewHashmap(E) in every slice
+	//        order / two objects over the same slices), then Marshal, Items, Get, Put, Marshal
+	//        again ...  Marshal is a read: the object answers the same before and after,
+	//        an unchanged object encodes to the same cells, every encoding decodes to the
+	//        current mapping
+	nHist := c.Scale(70, 500)
+	for _, kt := range c05KeyTypes {
+		for i := 0; i < nHist; i++ {
+			shape := c05Shapes[r.Intn(len(c05Shapes))]
+			var kvs []c05KV
+			for _, k := range c05KeySet(r, kt.n, 1+c05PickSize(r, maxSize/2), shape) {
+				kvs = append(kvs, c05KV{k, uint32(r.U64())})
+			}
+			sorted := c05SortedDistinct(kvs)
+			build := []string{"put", "new", "new", "new2"}[r.Intn(4)]
+			var order []c05KV
+			ord := "shuffled"
+			switch r.Intn(5) {
+			case 0:
+				order, ord = append(order, sorted...), "ascending"
+			case 1:
+				ord = "descending"
+				for j := len(sorted) - 1; j >= 0; j-- {
+					order = append(order, sorted[j])
+				}
+			case 2:
+				ord = "negatives-first"
+				for _, kv := range sorted {
+					if kv.k[0] == '1' {
+						order = append(order, kv)
+					}
+				}
+				for _, kv := range sorted {
+					if kv.k[0] == '0' {
+						order = append(order, kv)
+					}
+				}
+			default:
+				order = c05Shuffle(r, sorted)
+			}
+			if build == "put" {
+				ord = "any"
+			}
+			e := !r.Chance(30)
+			nobj := 1
+			if build == "new2" {
+				nobj = 2
+			}
+			ref := map[string]uint32{}
+			for _, kv := range sorted {
+				ref[kv.k] = kv.v
+			}
+			var steps []sx.V
+			pick := func() string {
+				if len(sorted) > 0 && r.Chance(60) {
+					return sorted[r.Intn(len(sorted))].k
+				}
+				if len(sorted) > 0 && r.Bool() {
+					b := []byte(sorted[r.Intn(len(sorted))].k)
+					b[r.Intn(len(b))] ^= 1
+					return c05Canon(kt.n, string(b))
+				}
+				return c05KeySet(r, kt.n, 1, "single")[0]
+			}
+			steps = append(steps, sx.L(sx.A("items"), sx.Nat(0)), sx.L(sx.A("marshal"), sx.Nat(r.Intn(nobj))))
+			for j, ns := 0, 3+r.Intn(9); j < ns; j++ {
+				o := sx.Nat(r.Intn(nobj))
+				switch x := r.Intn(10); {
+				case x < 3:
+					steps = append(steps, sx.L(sx.A("marshal"), o))
+				case x < 5:
+					steps = append(steps, sx.L(sx.A("items"), o))
+				case x < 8 || build == "new2":
+					steps = append(steps, sx.L(sx.A("get"), o, sx.Bits(pick())))
+				default:
+					steps = append(steps, sx.L(sx.A("put"), o, sx.Bits(pick()), sx.N(uint64(uint32(r.U64())))))
+				}
+			}
+			steps = append(steps, sx.L(sx.A("items"), sx.Nat(nobj-1)), sx.L(sx.A("marshal"), sx.Nat(0)), sx.L(sx.A("items"), sx.Nat(0)))
+			in := sx.L(sx.Nat(kt.n), sx.B(kt.signed), sx.B(e), sx.A(build), c05ItemsSx(order), sx.L(steps...))
+			out := c.Emit("c05.hist", in, fmt.Sprintf("%s|%s-%s", c05Family(kt), build, ord))
+			c05HistOracle(c, in, out, kt, e, build, order, steps, ref)
+		}
+	}
+}
+
+// oracle of a c05.hist case, stated on the implementation's answers alone
+func c05HistOracle(c *Ctx, in, out sx.V, kt c05KT, e bool, build string, order []c05KV, steps []sx.V, ref map[string]uint32) {
+	if out.K != sx.KL || len(out.List) != len(steps) {
+		c.Fail("c05.hist", in, "hist-fail", "history on a dictionary object failed: "+trunc(out.String(), 120))
+		return
+	}
+	prevItems := ""
+	if build != "put" {
+		prevItems = c05ItemsSx(order).String() // NewHashmap keeps the slices as given
+	}
+	prevCell := ""
+	for j, st := range steps {
+		res := out.List[j]
+		switch st.Head() {
+		case "marshal":
+			if res.IsA("err") || res.IsA("panic") {
+				c.Fail("c05.hist", in, "hist-marshal-fails", fmt.Sprintf("step %d: Marshal of a dictionary with distinct keys failed", j))
+				return
+			}
+			if prevCell != "" && prevCell != res.String() {
+				c.Fail("c05.hist", in, "marshal-unstable", fmt.Sprintf("step %d: the same unchanged dictionary marshals to different cells the second time", j))
+				return
+			}
+			prevCell = res.String()
+			if !e && len(ref) == 0 {
+				continue
+			}
+			var final []c05KV
+			for k, v := range ref {
+				final = append(final, c05KV{k, v})
+			}
+			dec := safeExec("c05.decode", sx.L(sx.Nat(kt.n), sx.B(e), res))
+			if dec.String() != c05ItemsSx(c05SortedDistinct(final)).String() {
+				c.Fail("c05.hist", in, "hist-decode", fmt.Sprintf("step %d: the encoding does not decode to the dictionary's current mapping but to %s", j, trunc(dec.String(), 200)))
+				return
+			}
+		case "items":
+			if res.K != sx.KL {
+				c.Fail("c05.hist", in, "hist-items", fmt.Sprintf("step %d: Keys/Values/Items disagree with each other", j))
+				return
+			}
+			if prevItems != "" && prevItems != res.String() {
+				c.Fail("c05.hist", in, "marshal-mutates", fmt.Sprintf("step %d: Items() changed although only Marshal/Get/Items happened since: %s, before %s", j, trunc(res.String(), 150), trunc(prevItems, 150)))
+				return
+			}
+			prevItems = res.String()
+			got := map[string]uint32{}
+			for _, kv := range c05KVsOf(res) {
+				got[kv.k] = kv.v
+			}
+			same := len(got) == len(ref) && len(res.List) == len(ref)
+			for k, v := range ref {
+				if gv, ok := got[k]; !ok || gv != v {
+					same = false
+				}
+			}
+			if !same {
+				c.Fail("c05.hist", in, "hist-items", fmt.Sprintf("step %d: Items() is not the dictionary's mapping: %s", j, trunc(res.String(), 200)))
+				return
+			}
+		case "get":
+			want := "'none"
+			if v, ok := ref[st.List[2].Bits]; ok {
+				want = sx.L(sx.N(uint64(v))).String()
+			}
+			if res.String() != want {
+				c.Fail("c05.hist", in, "hist-get", fmt.Sprintf("step %d: Get answered %s, the mapping says %s", j, res, want))
+				return
+			}
+		case "put":
+			ref[st.List[2].Bits] = uint32(st.List[3].U64())
+			prevItems, prevCell = "", ""
+		}
+	}
 }
 
 func c05CellOK(c *c05Cell) bool {
@@ -799,6 +959,19 @@ func c05Regressions(c *Ctx) {
 	if dec3.String() != c05ItemsSx(c05SortedDistinct(raw)).String() {
 		c.Fail("c05.raw", in3, "unsorted-slice", "NewHashmapE with keys 1, 200, 2 marshals to a dictionary that decodes to "+trunc(dec3.String(), 200))
 	}
+	// histories on one object (seeded change C05-r2m2: Marshal permuted the caller's values in place)
+	st := func(name string, args ...sx.V) sx.V { return sx.L(append([]sx.V{sx.A(name), sx.Nat(0)}, args...)...) }
+	h1 := []c05KV{{"11001000", 0}, {"00000001", 1}} // NewHashmapE(keys 200, 1)
+	s1 := []sx.V{st("marshal"), st("items"), st("get", sx.Bits("11001000")), st("marshal")}
+	in4 := sx.L(sx.Nat(8), sx.B(false), sx.B(true), sx.A("new"), c05ItemsSx(h1), sx.L(s1...))
+	c05HistOracle(c, in4, c.Emit("c05.hist", in4, "regression|hist-new"), c05KT{8, false}, true, "new", h1, s1,
+		map[string]uint32{"11001000": 0, "00000001": 1})
+	h2 := []c05KV{{"11111001", 77}, {"11111111", 1}, {"00000000", 2}, {"00000101", 3}} // Int8 -7, -1, 0, 5 via Put
+	s2 := []sx.V{st("marshal"), st("get", sx.Bits("11111001")), st("items"), st("marshal"),
+		st("put", sx.Bits("00000001"), sx.N(9)), st("marshal"), st("items")}
+	in5 := sx.L(sx.Nat(8), sx.B(true), sx.B(true), sx.A("put"), c05ItemsSx(h2), sx.L(s2...))
+	c05HistOracle(c, in5, c.Emit("c05.hist", in5, "regression|hist-put"), c05KT{8, true}, true, "put", h2, s2,
+		map[string]uint32{"11111001": 77, "11111111": 1, "00000000": 2, "00000101": 3})
 }
 
 // Known finding addr-workchain-int8 (C05_address_workchain_int8_refuted): replayed on
